@@ -14,7 +14,7 @@ from .model import Ref, runs_of
 # ----------------------------------------------------------------------------- node universes
 INT_POOL = [0, 1, 2, 3, -1, 7, 10, -5, 42, 100]
 STR_POOL = ['a', 'b', 'c', 'A', '', 'é', 'n1', 'x y', 'ß', '0']
-SAFE_STR_POOL = ['a', 'b', 'c', 'A', 'n1', 'é', 'ß', 'zz', 'Q', 'k9']
+SAFE_STR_POOL = ['a', 'b', 'c', 'A', 'n1', 'é', 'ß', 'zz', 'Q', 'k9', '0', '7', '10', '-1']     # incl. strings that look like ints
 TUPLE_POOL = [[1, 2], [2, 1], [0], [], ['a', 1], [1, 2, 3]]
 FSET_POOL = [[1], [1, 2], [], [3], ['a'], [2, 3]]
 
@@ -215,6 +215,10 @@ def history(draw, classes=('DynGraph', 'DynDiGraph'), removal=(True,), kinds=Non
                     t = rr[0] + draw(st.integers(0, 3))
                 e = t + draw(st.integers(1, 4)) if draw(st.booleans()) else None
                 op = ['add', ui, vi, t, e]
+        elif kind == 'tpath':
+            k = draw(st.integers(2, min(5, nn)))
+            seq = draw(st.lists(st.integers(0, nn - 1), min_size=k, max_size=k, unique=True))
+            op = ['tpath', seq, base + draw(st.integers(0, max(0, horizon - 1)))]
         elif kind == 'gaprun':
             # one more run after a gap on an existing pair (mostly the first pair): builds long timelines
             keys = [k for k in model.keys() if model.latest_run(k) is not None]
